@@ -262,6 +262,9 @@ class MoleculeResolver:
                 nx.set_node_attributes(graph_frag, [meta_node], 'fragid')
                 graph_frag.nodes[new_node]['mapping'] = [(fragname, node)]
                 self.molecule.nodes[new_node]['mapping'] = [(fragname, node)]
+                # the fragment id is the key of the node it stems from; the running
+                # index assigned when merging lags behind once a virtual node is skipped
+                self.molecule.nodes[new_node]['fragid'] = [meta_node]
 
             for a, b in fragment.edges:
                 new_a = correspondence[a]
